@@ -173,9 +173,10 @@ def flatten_toplevel(body: List[ast.stmt]) -> List[ast.stmt]:
 
 
 class Program:
-    def __init__(self, repo: str = "/repo", overlay: Optional[Dict[str, str]] = None):
+    def __init__(self, repo: str = "/repo", overlay: Optional[Dict[str, str]] = None, trees: Optional[Dict[str, ast.Module]] = None):
         self.repo = os.path.abspath(repo)
         self.overlay = dict(overlay or {})
+        self.trees = dict(trees or {})  # relpath -> already parsed (normalised) module tree
         self.modules: Dict[str, Module] = {}
         self.functions: Dict[str, FunctionInfo] = {}
         self.classes: Dict[str, ClassInfo] = {}
@@ -237,10 +238,13 @@ class Program:
             else:
                 with open(path, encoding="utf-8") as f:
                     src = f.read()
-            try:
-                tree = ast.parse(src, filename=rel)
-            except SyntaxError as e:
-                raise AnalysisError(f"cannot parse {rel}: {e}")
+            if rel in self.trees:
+                tree = self.trees[rel]
+            else:
+                try:
+                    tree = ast.parse(src, filename=rel)
+                except SyntaxError as e:
+                    raise AnalysisError(f"cannot parse {rel}: {e}")
             m = Module(name=name, path=path, relpath=rel, source=src, tree=tree, kind=kind)
             self.modules[name] = m
             self.by_relpath[rel] = m
@@ -592,10 +596,29 @@ class Program:
 
     # ------------------------------------------------------------------ convenience
     def function(self, qualname: str) -> FunctionInfo:
-        f = self.functions.get(qualname)
+        f = self.functions.get(qualname) or self.moved(qualname)
         if f is None:
             raise AnalysisError(f"anchor function not found: {qualname}")
         return f
+
+    def moved(self, qualname: str) -> Optional[FunctionInfo]:
+        """a module-level function that was moved to another module and is imported back under its old name
+        (``from .new_home import f`` in the old module): the old qualified name still denotes it"""
+        mod, _, name = qualname.rpartition(".")
+        m = self.modules.get(mod)
+        if m is None or name not in m.bindings:
+            # Class.method: the class may have moved
+            mod2, _, cname = mod.rpartition(".")
+            m2 = self.modules.get(mod2)
+            if m2 is not None and cname in m2.bindings:
+                r = self.lookup(m2, cname)
+                if r.kind == "class" and r.cls is not None:
+                    return r.cls.methods.get(name)
+            return None
+        r = self.lookup(m, name)
+        if r.kind == "func" and r.func is not None:
+            return r.func
+        return None
 
     def cls(self, qualname: str) -> ClassInfo:
         c = self.classes.get(qualname)
